@@ -26,6 +26,25 @@ RTOL = 1e-7
 CRASH_LABEL = "no-unexpected-exception"  # implicit assertion of every harness: legal inputs do not make the code raise
 
 
+def _raised_in_repo(e, W):
+    """True when the deepest frame that belongs to either the harness or the repository is a repository frame
+    (an exception out of harness / stub code is a harness error, never a finding)"""
+    from .world import REPO
+
+    repo = os.path.realpath(getattr(W, "repo", None) or REPO)
+    props = os.path.join(os.path.dirname(os.path.abspath(__file__)), "props", "")  # (frames of the numpy / pandas models are neutral)
+    last = None
+    tb = e.__traceback__
+    while tb is not None:
+        fn = os.path.realpath(tb.tb_frame.f_code.co_filename)
+        if fn.startswith(repo + os.sep):
+            last = "repo"
+        elif fn.startswith(props):
+            last = "harness"
+        tb = tb.tb_next
+    return last == "repo"
+
+
 class Reject(Exception):
     """raised by a scenario to signal a structural problem of the harness itself"""
 
@@ -390,7 +409,7 @@ def run_cell(h, cell, tier, seed, budget_s):
             try:
                 out = h.scenario(W, inp, cell)
             except Exception as e:  # noqa  (Abort / Inconclusive / ModelGap are BaseExceptions and pass through)
-                if getattr(ctx, "vacuity_probe", False):
+                if getattr(ctx, "vacuity_probe", False) or not _raised_in_repo(e, W):
                     raise
                 # the code under test raised on inputs the harness considers legal: a finding *iff* the real stack
                 # raises the same exception on a model of this path (decided by the replay); otherwise a harness error
